@@ -33,6 +33,14 @@ Theorem C08_wrong_dimensions_are_refused : forall st first nx ny w,
   (length (fst w) <> nx \/ length (snd w) <> ny) -> sim_waypoint st first nx ny w = AErr EDims.
 Proof. exact wrong_dimensions_refused. Qed.
 
+(* no two lit tweezers of an axis coincide after an accepted waypoint: the coordinates of the lit
+   tones are pairwise different (a duplicated tone would claim one atom twice) *)
+Theorem C08_tweezers_never_coincide : forall st first nx ny w st',
+  sim_waypoint st first nx ny w = AOk st' ->
+  (forall i j : nat, (i < j)%nat -> (j < length (xon st'))%nat -> ~ Qeq (nth i (map snd (xon st')) 0) (nth j (map snd (xon st')) 0)) /\
+  (forall i j : nat, (i < j)%nat -> (j < length (yon st'))%nat -> ~ Qeq (nth i (map snd (yon st')) 0) (nth j (map snd (yon st')) 0)).
+Proof. exact tweezers_never_coincide. Qed.
+
 (* a CZ-move shaped program on a 2x1 selection: out along an L-shaped path, back along its reversal *)
 Example C08_example :
   let ALL := SSlice None None None in
@@ -41,11 +49,13 @@ Example C08_example :
   let bwd := mkspath 2 1 [SWay [([12; 32], [2]); ([2; 22], [2]); ([0; 20], [0])]; SSwitch Off ALL ALL; SWay [([0; 20], [0])]] in
   let swapped := mkspath 2 1 [SWay [([10; 30], [0])]; SSwitch Off ALL ALL; SWay [([10; 30], [0])]] in
   show_sim (sim_paths st0 [fwd; bwd]) = "ok held=0 occ=[1@0/1,0/1,2@20/1,0/1,3@10/1,0/1]"%string
-  /\ sim_paths st0 [fwd; swapped] = AErr EJump.
-Proof. vm_compute. split; reflexivity. Qed.
+  /\ sim_paths st0 [fwd; swapped] = AErr EJump
+  /\ sim_paths st0 [mkspath 2 1 [SWay [([0; 0], [0])]; SSwitch On ALL ALL]] = AErr ECollide.
+Proof. vm_compute. repeat split; reflexivity. Qed.
 
 Print Assumptions C08_no_atom_lost_or_duplicated.
 Print Assumptions C08_release_only_onto_vacant_trap_sites.
 Print Assumptions C08_spots_light_up_only_on_trap_sites.
 Print Assumptions C08_jump_while_holding_is_refused.
 Print Assumptions C08_wrong_dimensions_are_refused.
+Print Assumptions C08_tweezers_never_coincide.
